@@ -263,6 +263,11 @@ def stream_masks(rep, drv, r, n):
         sub = 1 if method == 'center' else r.choice([1, 2, 4, 2, 4, 8, 3, 5])
         try:
             ap = make_aperture(kind, p)
+            if k % 4 == 1:
+                # the same aperture object was asked for other masks before (another sub-sampling factor, other methods):
+                # the mask is a function of (shape, method, subpixels) only
+                _ = ap.to_mask(method='subpixel', subpixels=r.choice([1, 2, 3, 7, 16]))
+                _ = ap.to_mask(method=r.choice(['center', 'exact']))
             m = ap.to_mask(method=method, subpixels=sub)
         except Exception as e:  # pragma: no cover - reported as violation below
             rep.violation(f'to_mask-raises:{kind}:{type(e).__name__}',
